@@ -101,6 +101,15 @@ def run(tier):
                 for kind in ("impulse", "tone"):
                     add(kind=kind, N=N, j=j, ctor=ctor, ks=sorted(set([0, 1, N // 2, N - 1, j, (N - j) % N] + [rng.randrange(N) for _ in range(12)])))
             add(kind="inv", N=N, ctor=ctor, seed=rng.randrange(1 << 40))
+    # transformers with a past: a refused Inverse / Transform (wrong length), or an earlier Transform whose result the caller
+    # still holds, before the judged call on the same transformer
+    for e in ([1, 2, 3, 4, 6, 8, 10, 11] + ([13, 16] if thorough else [])):
+        N = 1 << e
+        for pre in ("refusedinv", "refusedfwd", "keep"):
+            for j in sorted({0, 1, N - 1, rng.randrange(N)}):
+                for kind in ("impulse", "tone"):
+                    add(kind=kind, N=N, j=j, pre=pre, ks=sorted(set([0, 1, N // 2, N - 1, j, (N - j) % N] + [rng.randrange(N) for _ in range(12)])))
+            add(kind="inv", N=N, pre=pre, seed=rng.randrange(1 << 40))
     for N in (2, 8, 1024, 4096):
         for ln in (N - 1, N + 1, 0, 2 * N, N // 2):
             add(kind="wronglen", N=N, len=ln)
@@ -129,7 +138,10 @@ def run(tier):
         r = rows.get(j["id"])
         if r is None:
             continue
+        if r.get("skipped"):
+            continue
         e = {"ev": "fft", "kind": j["kind"], "N": j["N"], "j": j["j"], "len": j["len"], "id": j["id"], "panicked": "panic" in r, "err": bool(r.get("err", False)),
+             "hang": bool(r.get("hang", False)), "kept": bool(r.get("kept", True)),
              "n": int(r.get("n", 0)), "samples": r.get("samples", []), "maxerr": r.get("maxerr", "0"), "maxdiff": r.get("maxdiff", "0"),
              "norm": r.get("norm", "1"), "returned": bool(r.get("returned", False))}
         events.append(e)
@@ -139,7 +151,7 @@ def run(tier):
     for e in rej:
         run.violation({"kind": e["kind"], "N": e["N"], "j": e["j"], "len": e["len"]}, {"cmd": "fft", "job": byid[e["id"]], "event": {k: v for k, v in e.items() if k != "samples"}, "samples_head": e["samples"][:4]})
     for e in events:
-        run.nontriv("%s|%d|%d|%d|%s|%s" % (e["kind"], e["N"], e["j"], e["len"], byid[e["id"]].get("ctor", 0), byid[e["id"]].get("envlabel", "")))
+        run.nontriv("%s|%d|%d|%d|%s|%s" % (e["kind"], e["N"], e["j"], e["len"], str(byid[e["id"]].get("ctor", 0)) + byid[e["id"]].get("pre", ""), byid[e["id"]].get("envlabel", "")))
     run.sample({"event": {k: v for k, v in events[-40].items() if k != "samples"}, "samples_head": events[-40]["samples"][:2]})
     run.rule = ("model: the FFT as written equals the DFT on every unit impulse for N = 2..64 (128) (complete by linearity) and Inverse inverts; "
                 "code: exact spectra of integer inputs for N <= 64 (128); impulse (every position for small N) and tone families with TLC-judged sampled bins and a full-vector float screen "
